@@ -28,10 +28,9 @@ def add_arguments(parser):
 
 
 def unphase_header(header):
-    for hr in header.records:
-        if hr.key == "phasing":
-            hr.remove()
-            break
+    # (a header may contain the same key more than once)
+    for hr in [hr for hr in header.records if hr.key == "phasing"]:
+        hr.remove()
 
     for tag in TAGS_TO_REMOVE:
         if tag in header.formats:
